@@ -36,6 +36,7 @@ def plan(tier, seed):
         specs.append({'part': 'slots', 'shard': i, 'of': ns, 'timeout': 600 if tier == 'quick' else 14000, 'budget_s': 90 if tier == 'quick' else 2400})
     specs.append({'part': 'run', 'shard': 0, 'of': 1, 'timeout': 600 if tier == 'quick' else 14000, 'budget_s': 60 if tier == 'quick' else 1500})
     specs.append({'part': 'tool', 'shard': 0, 'of': 1, 'timeout': 600 if tier == 'quick' else 14000, 'budget_s': 60 if tier == 'quick' else 1500})
+    specs.append({'part': 'fast', 'shard': 0, 'of': 1, 'timeout': 600 if tier == 'quick' else 14000, 'budget_s': 60 if tier == 'quick' else 1500})
     if tier == 'thorough':
         for i in range(4):
             specs.append({'part': 'step', 'shard': i, 'of': 4, 'flavour': 'asan', 'asan_scale': 0.1, 'timeout': 14000, 'budget_s': 2400})
@@ -264,6 +265,7 @@ def run_run(shard, spec):
 
 def run_tool(shard, spec):
     n = 60 if shard.tier == 'quick' else 1500
+    run_tool_fast(shard, 60 if shard.tier == 'quick' else 1500)
     for case in range(n):
         rng = shard.rng('tool', case)
         is128 = rng.random() < 0.35
@@ -311,6 +313,159 @@ def run_tool(shard, spec):
         elif outs[0][1] != outs[1][1]:
             shard.violation('trace.py snapshot differs with --python (same stdout); args %s' % args, {'part': 'tool', 'case': case, 'args': args})
         shard.case(('tool', case), True, sample={'trace_args': args, '128K': is128, 'log_lines': len(outs[0][0].splitlines())} if case < 2 else None)
+        if shard.out_of_time():
+            break
+
+def fast_mode_program(rng, org):
+    """Terminating program of block copies and DJNZ delay loops, mostly with interrupts disabled: the shapes the Python
+    simulator's shortcuts take over when trace.py runs without -v/-m/-M. Copies stay clear of the code."""
+    out = [0xF3] if rng.random() < 0.8 else [0xFB]
+    for _ in range(rng.randint(2, 6)):
+        k = rng.random()
+        if k < 0.6:
+            de = rng.choice([0x3FF0, 0x3FFE, 0x3FFF, 0x4000, 0x4001, 0x5AF0, 0xB000, 0xFFF0, 0xFFFE, 0x0000, 0x0005]) + rng.randint(0, 3)
+            down = rng.random() < 0.5
+            bc = rng.choice([1, 2, 3, 15, 16, 17, 0x40, 0x101])
+            if down and 0xB000 <= de < 0xB004:
+                de += 0x200
+            hl = rng.choice([de - 1, de + 1, 0x0000, 0x3FF8, 0x5000, 0xA000, 0xFFF8]) & 0xFFFF
+            out += [0x3E, rng.randrange(256), 0x21, hl & 0xFF, hl >> 8, 0x11, de & 0xFF, (de >> 8) & 0xFF, 0x01, bc & 0xFF, bc >> 8, 0xED, 0xB8 if down else 0xB0]
+        elif k < 0.85:
+            out += [0x06, rng.choice([0, 1, 2, 0x80, 0xFF, rng.randrange(256)]), 0x10, 0xFE]
+        elif k < 0.93:
+            out += [rng.choice([0xF3, 0xFB])]
+        else:
+            out += safe_program(rng, 6)
+    return out
+
+# ---- the Python simulator's shortcuts (fast_djnz / fast_ldir, used by trace.py without -v/-m/-M and by #SIM)
+
+FAST_PTRS = [0x0000, 0x0001, 0x3FF0, 0x3FFD, 0x3FFE, 0x3FFF, 0x4000, 0x4001, 0x4002, 0x7FFF, 0x8000, 0xBFFF, 0xC000, 0xFFF0, 0xFFFD, 0xFFFE, 0xFFFF]
+
+def run_fast(shard, spec):
+    """One run() of a Simulator built with fast_djnz/fast_ldir (it may execute many iterations of LDIR/LDDR/DJNZ at once)
+    against the ordinary Python simulator and the C simulator iterated until their clocks reach the same T: registers and
+    the whole memory must be identical (the shortcut is an optimisation, not a different machine)."""
+    from skoolkit import simutils
+    from skoolkit.simulator import Simulator
+    n = 1500 if shard.tier == 'quick' else 40000
+    for case in range(n):
+        rng = shard.rng('fast', case)
+        kind = rng.choice(['ldir', 'ldir', 'lddr', 'lddr', 'djnz'])
+        pc = rng.choice([0x8000, 0x7FFE, 0x3FFE, 0x3FFF, 0x4000, 0xFFFE, 0xFFFF, 0xC000, rng.randrange(65536)])
+        regs = proggen.regs30(rng, pc=pc)
+        regs[26] = 0 if rng.random() < 0.8 else 1
+        bg = rng.random()
+        if bg < 0.5:
+            image = [rng.randrange(256) for _ in range(65536)]
+        else:
+            image = [(i * 13 + (i >> 8)) & 0xFF for i in range(65536)]
+        if kind == 'djnz':
+            code = [0x10, 0xFE if rng.random() < 0.8 else rng.choice([0x00, 0xFD, 0xFF, 0x02])]
+            regs[2] = rng.choice([0, 1, 2, 3, 0x7F, 0x80, 0xFF, rng.randrange(256)])
+        else:
+            code = [0xED, 0xB0 if kind == 'ldir' else 0xB8]
+            bc = rng.choice([1, 1, 2, 3, 5, 16, 17, 0x100, 0x101, rng.randrange(1, 400)] + ([0] if rng.random() < 0.03 else []))
+            regs[2], regs[3] = bc >> 8, bc & 0xFF
+            r = rng.random()
+            if r < 0.45:
+                de = (rng.choice(FAST_PTRS) + rng.randint(-20, 20)) & 0xFFFF
+            elif r < 0.7:
+                de = (pc + rng.randint(-24, 24)) & 0xFFFF           # the copy runs over the instruction itself
+            else:
+                de = rng.randrange(65536)
+            r = rng.random()
+            if r < 0.3:
+                hl = (de + rng.choice([-1, 1, -2, 2])) & 0xFFFF      # overlapping (propagating fill)
+            elif r < 0.6:
+                hl = (rng.choice(FAST_PTRS) + rng.randint(-20, 20)) & 0xFFFF
+            else:
+                hl = rng.randrange(65536)
+            regs[4], regs[5] = de >> 8, de & 0xFF
+            regs[6], regs[7] = hl >> 8, hl & 0xFF
+        for i, b in enumerate(code):
+            image[(pc + i) & 0xFFFF] = b
+        rp = {'part': 'fast', 'case': case}
+        fast = simutils.from_memory(Simulator, list(image), config={'fast_djnz': True, 'fast_ldir': True})
+        sims.set_regs(fast, regs)
+        try:
+            fast.run()
+        except Exception as e:
+            shard.violation('fast Python simulator raised %r on %s from %s' % (e, bytes(code).hex(), sims.fmt_regs(regs)), rp)
+            continue
+        fregs = list(fast.registers)
+        ft = fregs[25]
+        iterations = 0
+        for other in ('py', 'c'):
+            m = sims.Machine(other, image, regs, 0, False, 0)
+            steps = 0
+            while m.sim.registers[25] < ft and steps < 70000:
+                m.step()
+                steps += 1
+            iterations = max(iterations, steps)
+            oregs = m.regs
+            diff = [(sims.REGNAMES[i], fregs[i], oregs[i]) for i in range(29) if i != 13 and fregs[i] != oregs[i]]
+            shard.inc('monitor:fast_path_comparisons')
+            if diff:
+                shard.violation('fast Python simulator (one run() of %s at %d) vs %s iterated %d times: (register, fast, iterated) %s; start state %s' % (
+                    bytes(code).hex(), pc, other, steps, diff[:8], sims.fmt_regs(regs)), rp)
+                break
+            omem = m.sim.memory
+            if bytes(fast.memory) != bytes(omem):
+                bad = [(a, fast.memory[a], omem[a]) for a in range(65536) if fast.memory[a] != omem[a]][:6]
+                shard.violation('fast Python simulator (one run() of %s at %d) vs %s iterated %d times: memory (address, fast, iterated) %s; start state %s' % (
+                    bytes(code).hex(), pc, other, steps, bad, sims.fmt_regs(regs)), rp)
+                break
+        if iterations > 1:
+            shard.inc('observed:fast_path_multi_iteration')
+        shard.hist('fast_iterations', '1' if iterations <= 1 else ('2-16' if iterations <= 16 else ('17-400' if iterations <= 400 else '>400')))
+        shard.case(('fast', case), iterations > 1, sample={'code': bytes(code).hex(), 'pc': pc, 'iterations': iterations} if case < 3 else None)
+        if shard.out_of_time():
+            break
+
+def run_tool_fast(shard, n):
+    """trace.py without -v/-m/-M (the mode in which the Python simulator uses its shortcuts), with and without --python."""
+    for case in range(n):
+        rng = shard.rng('toolfast', case)
+        org = rng.choice([0x8000, 0x6000, 0x9000])
+        code = fast_mode_program(rng, org)
+        stop = org + len(code)
+        harness.write_file('prog.bin', bytes(code + [0, 0, 0, 0]))
+        args = ['-o', str(org), '-S', str(stop)]
+        if rng.random() < 0.3:
+            args.append('-c')
+        if rng.random() < 0.3:
+            args.append('-n')
+        args += ['--reg', 'SP=%d' % rng.choice([0x7F00, 0x7000]), '--state', 'tstates=%d' % rng.randrange(69888), '--state', 'iff=%d' % rng.randrange(2)]
+        outs = []
+        for py in (False, True):
+            fn = 'fast_%d.%s' % (py, 'szx')
+            a = list(args) + (['--python'] if py else []) + ['prog.bin', fn]
+            try:
+                with harness.time_limit(60):
+                    r = harness.run_tool('trace', a)
+            except harness.CaseTimeout:
+                shard.skip('trace.py fast-mode program did not reach its stop address within the wall-clock watchdog')
+                outs = None
+                break
+            if not r.ok:
+                shard.violation('trace.py %s failed: %s\n%s' % ('--python' if py else '(C)', r.describe(), (r.tb or '')[-800:]), {'part': 'tool', 'fastcase': case})
+                outs = None
+                break
+            outs.append((r.out.replace(fn, 'OUT'), harness.read_file(fn)))
+        if outs is None:
+            continue
+        shard.inc('monitor:trace_fast_mode_pairs')
+        if outs[0][0] != outs[1][0]:
+            shard.violation('trace.py (no -v/-m: fast mode) stdout differs with --python: C %r, Python %r; args %s, program %s' % (
+                outs[0][0][-200:], outs[1][0][-200:], args, bytes(code).hex()), {'part': 'tool', 'fastcase': case, 'args': args})
+        elif outs[0][1] != outs[1][1]:
+            from skoolkit.snapshot import Snapshot
+            s0, s1 = Snapshot.get('fast_0.szx'), Snapshot.get('fast_1.szx')
+            what = [(k, getattr(s0, k), getattr(s1, k)) for k in ('a', 'f', 'bc', 'de', 'hl', 'ix', 'iy', 'sp', 'pc', 'i', 'r', 'iff1', 'im', 'tstates') if getattr(s0, k, None) != getattr(s1, k, None)]
+            shard.violation('trace.py (no -v/-m: fast mode) snapshot differs with --python: (field, C, Python) %s%s; args %s, program %s' % (
+                what, '' if what else ' RAM differs', args, bytes(code).hex()), {'part': 'tool', 'fastcase': case, 'args': args})
+        shard.case(('toolfast', case), True, sample={'trace_args': args, 'program': bytes(code).hex()} if case < 2 else None)
         if shard.out_of_time():
             break
 
@@ -421,7 +576,7 @@ def run(shard, spec):
     if skoolkit.CSimulator is None or skoolkit.CCMIOSimulator is None:
         shard.violation('C simulators are not importable: tools would silently fall back to Python', {'part': 'import'})
         return
-    {'step': run_step, 'run': run_run, 'tool': run_tool, 'slots': run_slots}[spec['part']](shard, spec)
+    {'step': run_step, 'run': run_run, 'tool': run_tool, 'slots': run_slots, 'fast': run_fast}[spec['part']](shard, spec)
 
 def replay(shard, rp):
     spec = {'part': rp['part'], 'shard': rp.get('case', 0), 'of': 10 ** 9, 'flavour': rp.get('flavour', 'plain')}
@@ -436,7 +591,7 @@ def replay(shard, rp):
 def finalize(agg, tier):
     probs = []
     c = agg['counters']
-    for k in ('monitor:steps_compared', 'monitor:slot_steps_compared', 'monitor:run_to_stop_compared', 'monitor:trace_tool_pairs', 'monitor:port_events', 'monitor:accept_interrupt_calls'):
+    for k in ('monitor:steps_compared', 'monitor:slot_steps_compared', 'monitor:run_to_stop_compared', 'monitor:trace_tool_pairs', 'monitor:port_events', 'monitor:accept_interrupt_calls', 'monitor:fast_path_comparisons', 'observed:fast_path_multi_iteration', 'monitor:trace_fast_mode_pairs'):
         if not c.get(k):
             probs.append('monitor %s observed nothing' % k)
     return probs
